@@ -171,11 +171,11 @@ theorem applyDefaults_month (ty : Ty) (st : St) (now : Clock) (hty : ty.info.HAS
 theorem parse_valid' (ty : Ty) (fields : List Field) (input : Bytes) (now : Clock) (v : Int) (r : Nat)
     (h : Parser.parse ty fields input now = .ok (v, r)) : ty.Valid v := by
   unfold parse at h
-  cases hp : parseFields ty now { s := input } fields with
+  cases hp : parseFields ty now (initSt ty input) fields with
   | error e => simp [hp, bind, Except.bind] at h
   | ok st =>
     simp only [hp, bind, Except.bind] at h
-    have hmo : MonthOK st := parseFields_monthOK ty now fields _ st hp (by unfold MonthOK; simp)
+    have hmo : MonthOK st := parseFields_monthOK ty now fields _ st hp (by unfold MonthOK initSt initNDT; split <;> (try split) <;> simp)
     split at h
     · cases h
     · cases hr : resolveDoy st (applyDefaults ty st now).1 with
